@@ -23,6 +23,7 @@ macro_rules! dispatch {
             "C04" => pbt::$f::<props::c04::C04>($($args),*),
             "C05" => pbt::$f::<props::c05::C05>($($args),*),
             "C09" => pbt::$f::<props::c09::C09>($($args),*),
+            "C13" => pbt::$f::<props::c13::C13>($($args),*),
             "C14" => pbt::$f::<props::c14::C14>($($args),*),
             "C15" => pbt::$f::<props::c15::C15>($($args),*),
             other => {
